@@ -6,7 +6,7 @@ from .. import jsongen
 THEOREMS = ['parseFilter_total', 'since_until_literal', 'since_until_wide_rejected', 'kind_member_bound',
             'duplicate_letter_rejected', 'round_trip', 'round_trip_values', 'accepted_is_wellformed',
             'any_order_any_whitespace_unknown_members', 'accepts_characterised', 'repeated_member_refused',
-            'order_independent', 'acceptance_order_independent', 'filter_layout_from_source', 'tag_table_from_source', 'tag_member_letter_from_source', 'filter_header_from_source']
+            'order_independent', 'acceptance_order_independent', 'filter_layout_from_source', 'tag_table_from_source', 'tag_member_letter_from_source', 'filter_header_from_source', 'filter_arrays_from_source']
 
 
 def acc_values(a):
